@@ -259,6 +259,36 @@ def mc(ctx, module, cfg, workers=8, timeout=900, must_cover=(), **kw):
     return r
 
 
+def apalache_inductive(ctx, module, cinit="ConstInit", inv="IndInv", init="Init", indinit="IndInit", subst=None, timeout=900, neg=False):
+    """inductive-invariant check with Apalache (spec/apalache/<module>.tla): base case (length 0 from Init) and step
+    (length 1 from IndInit).  subst: textual substitutions applied to a scratch copy (negative controls).
+    Returns (base_ok, step_ok)."""
+    src = os.path.join(SPEC, "apalache", module + ".tla")
+    work = os.path.join(ctx.out, "apalache-" + module + ("-neg" if subst else ""))
+    shutil.rmtree(work, ignore_errors=True)
+    os.makedirs(work)
+    text = open(src).read()
+    for a, b in (subst or {}).items():
+        if a not in text:
+            raise ToolError("apalache substitution target missing: " + a)
+        text = text.replace(a, b)
+    open(os.path.join(work, module + ".tla"), "w").write(text)
+    res = []
+    for i, length in ((init, 0), (indinit, 1)):
+        rc, out = sh(["apalache-mc", "check", "--cinit=" + cinit, "--init=" + i, "--inv=" + inv, "--length=%d" % length,
+                      "--out-dir=" + os.path.join(work, "out"), module + ".tla"], timeout, cwd=work)
+        if "The outcome is: NoError" in out:
+            res.append(True)
+        elif "violated" in out or "Found 1 error" in out:
+            res.append(False)
+        else:
+            raise ToolError("apalache %s (%s, length %d): %s" % (module, i, length, out[-600:]))
+    shutil.rmtree(work, ignore_errors=True)
+    ctx.mc_runs.append({"module": "apalache/" + module + ".tla", "cfg": "inductive" + (" (negative control)" if neg else ""),
+                        "base": res[0], "step": res[1]})
+    return tuple(res)
+
+
 # ---------------------------------------------------------------- known findings
 def load_known():
     if not os.path.exists(KNOWN):
